@@ -850,7 +850,13 @@ fn check_grammar(g: &GrammarCase, checks: &[String], out: &mut Out, stats: &mut 
             let case = EvalCase { id: json!([g.id, n]), q: g.q.clone(), doc: d.doc.clone(), expect: d.expect.clone(), sm: d.sm.clone(), paths: vec![], ast: None };
             let doc = case.doc.to_value();
             let docj = case.doc.to_j().to_value();
-            check_eval(&case, &doc, &docj, "Value", &[which.to_string()], out, stats);
+            if has("jgrammar") {
+                // C15: the same spelling evaluated through the second Queryable implementation
+                let jd = case.doc.to_j();
+                check_eval(&case, &jd, &docj, "J", &[which.to_string()], out, stats);
+            } else {
+                check_eval(&case, &doc, &docj, "Value", &[which.to_string()], out, stats);
+            }
         }
     }
 }
